@@ -43,6 +43,12 @@ type H struct {
 
 var cur *H
 
+var helper *malloc.VerifC10Helper
+
+// the helper functions whose regenerated Lean terms are interpreted by wamodel_c10wat
+var helperNames = []string{"heap_assert_valid_ptr", "heap_is_fixed_list_enabled", "heap_assert_fixed_list_enabled",
+	"heap_is_fixed_size", "heap_alignment8", "heap_assert_align8", "heap_block.data", "heap_free_list.ptr_and_fixed_size"}
+
 var classSize = [4]int32{24, 32, 48, 80}
 
 func (x *H) mem() api.Memory { return malloc.VerifC10Mem(x.h) }
@@ -538,6 +544,52 @@ func handle(f []string) string {
 			canaryIdx(hs, func(i int) bool { b[int(ret)+i] = canary(ret, i); return true })
 		}
 		return x.finish(fmt.Sprintf("r=%d bs=%d <dump>", ret, hs), &v, chg, snap != nil, oldStarts, false)
+	case "hcfg":
+		if len(f) != 6 {
+			return "bad-op"
+		}
+		var n [5]int64
+		for i := range n {
+			var err error
+			if n[i], err = strconv.ParseInt(f[i+1], 10, 32); err != nil {
+				return "bad-op"
+			}
+		}
+		if helper != nil {
+			helper.Close()
+			helper = nil
+		}
+		c := malloc.Config{MemoryPages: int32(n[0]), MemoryPagesMax: int32(n[1]), StackPtr: int32(n[2]), HeapBase: int32(n[3]), HeapLFixedCap: int32(n[4])}
+		h, err := malloc.VerifC10NewHelper(&c, helperNames)
+		if err != nil {
+			return "herr " + strings.ReplaceAll(err.Error(), "\n", " ")
+		}
+		helper = h
+		return "ok"
+	case "h":
+		if len(f) < 2 || helper == nil {
+			return "bad-op"
+		}
+		args := make([]int32, 0, len(f)-2)
+		for _, a := range f[2:] {
+			v, err := strconv.ParseInt(a, 10, 32)
+			if err != nil {
+				return "bad-op"
+			}
+			args = append(args, int32(v))
+		}
+		res, err := helper.Call(f[1], args...)
+		if err != nil {
+			if strings.Contains(err.Error(), "no such export") {
+				return "bad-op"
+			}
+			return "trap"
+		}
+		out := "ok"
+		for _, r := range res {
+			out += " " + strconv.Itoa(int(r))
+		}
+		return out
 	case "dump":
 		if cur == nil {
 			return "nocfg"
